@@ -181,13 +181,26 @@ def gen_region_cases(rng, n, thorough):
     for _ in range(n):
         nd, limits, deltas = random_grid(rng, thorough)
         shape = [len(a) for a in grid_axes(limits, deltas)]
-        kind, reg = random_region(rng, shape)
+        for _ in range(8):
+            kind, reg = random_region(rng, shape)
+            # a single 2-D boundary component goes through the O(n^2) optimal-start search of the sorter: keep it
+            # within the tier's budget (this only selects inputs; it is not used as an oracle)
+            if len(shape) != 2 or int(boundary_by_definition(reg).sum()) <= (700 if not thorough else 1300):
+                break
         yield {"part": "A", "kind": kind, "shape": shape, "limits": limits, "deltas": deltas,
                "bits": "".join("1" if v else "0" for v in reg.ravel())}
 
 
 def corpus_cases():
-    """fixed witnesses that run first"""
+    """fixed witnesses that run first: corpus/C15/*.json (minimised past failures), then built-in ones"""
+    import glob
+    import json
+
+    from core import VERIF
+
+    for fn in sorted(glob.glob(os.path.join(VERIF, "corpus", "C15", "*.json"))):
+        d = json.load(open(fn))
+        yield d.get("case", d)
     # defect #15: sea-state model of the test-suite with anisotropic deltas
     yield {"part": "B", "mode": "seastate", "alpha": 0.01, "limits": [[0, 20], [0, 18]], "deltas": [0.2, 0.8]}
     yield {"part": "B", "mode": "seastate", "alpha": 0.01, "limits": [[0, 20], [0, 18]], "deltas": [0.4, 0.4]}
@@ -760,7 +773,7 @@ def hdc_phase2(ck, ctx, answer):
         rows = ans["sets"][0]
         x = np.array([r[0] for r in rows], dtype=np.uint64).view(np.float64)
         y = np.array([r[1] for r in rows], dtype=np.uint64).view(np.float64)
-        cap = 320 if ck.tier == "quick" else 700
+        cap = 320 if ck.tier == "quick" else 450
         if len(x) <= cap:
             out = np.asarray(impl["coords"], dtype=float)
             ck.count(f"{part}_sorted_order_compared")
@@ -897,12 +910,14 @@ def main(ck):
         t = time.time()
         f()
         walls[name] = round(time.time() - t, 1)
+        if os.environ.get("VERIF_PROGRESS"):
+            print(f"[c15] part {name}: {walls[name]} s", flush=True)
 
     timed("corpus", lambda: [dispatch(ck, case) for case in corpus_cases()])
-    timed("A", lambda: run_hdc_batch(ck, gen_region_cases(rng, 2500 if thorough else 400, thorough)))
-    timed("B", lambda: run_hdc_batch(ck, gen_hdc_cases(rng, 400 if thorough else 60, thorough), chunk=10))
+    timed("A", lambda: run_hdc_batch(ck, gen_region_cases(rng, 5000 if thorough else 400, thorough)))
+    timed("B", lambda: run_hdc_batch(ck, gen_hdc_cases(rng, 800 if thorough else 60, thorough), chunk=10))
     timed("B-default", lambda: run_hdc_batch(ck, gen_default_cases(rng, 8 if thorough else 2), chunk=10))
-    timed("C", lambda: run_sorter_cases(ck, gen_sorter_cases(rng, 2000 if thorough else 250, thorough)))
+    timed("C", lambda: run_sorter_cases(ck, gen_sorter_cases(rng, 4000 if thorough else 250, thorough)))
     timed("L", lambda: process_label_only(ck, rng, 2000 if thorough else 200))
     ck.extra["part_wall_s"] = walls
 
